@@ -10,205 +10,211 @@ use vh_lite::{read_cases, drive, drive_group, quiet_panics, Out};
 
 mod tc_right__to;
 mod tc_left__mrt;
-mod tc_left__runpar;
-mod tc_left__strpar;
-mod tc_nonlin__ren;
-mod mutual__to;
-mod mutual__srcto;
-mod mutual__permpar;
-mod scc_chain__topar;
-mod diamond__ser;
-mod repeated__pari;
-mod three_dyn__ser;
-mod three_dyn__permpar;
-mod conds__par;
-mod conds__srcto;
-mod conds__permpar;
-mod count_up__topar;
-mod multi_head__ren;
-mod facts__src0;
-mod facts__perm1;
-mod opt_cols__par;
-mod opt_cols__srcto;
-mod same_gen__ser;
-mod same_gen__permpar;
-mod not_reorderable__topar;
-mod pre_join_rec__to;
-mod two_inputs__pari;
-mod two_inputs__src2;
-mod two_inputs__ren;
-mod ternary__ser;
-mod ternary__u64;
-mod bound_mix__permpar;
-mod join_chain__perm2;
-mod cond_simple_join__pari;
-mod zero_arity__pari;
-mod lag_right__topar;
-mod lag_left__ser;
-mod lag_three__to;
-mod lag_mid__permpar;
-mod lag_late_delta__topar;
-mod sp_dual__ser;
-mod sp_dual__src0;
-mod sp_dual__perm1;
-mod sp_weighted__topar;
-mod set_reach__pari;
-mod set_reach__src2;
+mod tc_left__init;
+mod tc_left__u64;
+mod tc_nonlin__perm2;
+mod mutual__pari;
+mod mutual__src2;
+mod mutual__perm2;
+mod scc_chain__pari;
+mod scc_chain__u64;
+mod repeated__ser;
+mod repeated__u64;
+mod three_dyn__perm2;
+mod four_dyn__pari;
+mod conds__src1;
+mod conds__perm1;
+mod count_up__par;
+mod multi_head__topar;
+mod facts__run;
+mod facts__redecl;
+mod facts__str;
+mod opt_cols__gen;
+mod opt_cols__runpar;
+mod same_gen__to;
+mod same_gen__strpar;
+mod not_reorderable__ren;
+mod pre_join_rec__perm2;
+mod two_inputs__run;
+mod two_inputs__redecl;
+mod two_inputs__str;
+mod ternary__pari;
+mod bound_mix__ser;
+mod bound_mix__u64;
+mod join_chain__permpar;
+mod reach__par;
+mod self_join3__par;
+mod lag_right__perm2;
+mod lag_left__pari;
+mod lag_mid__ser;
+mod lag_mid__u64;
+mod multi_head_rec__par;
+mod sp_dual__pari;
+mod sp_dual__src2;
+mod sp_dual__perm2;
+mod longest_capped__ser;
+mod set_reach__to;
+mod set_reach__srcto;
 mod bset__pari;
 mod opt_lat__ser;
 mod bool_lat__pari;
 mod lat_multi_improve__topar;
 mod lat_count_all__pari;
 mod lat_input__topar;
-mod lat_input__redecl;
-mod count_paths__topar;
-mod count_paths__redecl;
-mod neg_basic__topar;
-mod neg_basic__redecl;
-mod neg_basic__exp;
-mod agg_depth__to;
-mod agg_user__par;
-mod agg_bound_mix__par;
-mod agg_empty_rel__par;
-mod agg_const_args__exppar;
-mod disj__topar;
-mod disj__redecl;
-mod disj__exp;
-mod pat_args__par;
-mod rep_expr__exppar;
-mod neg_in_disj__pari;
-mod mac_basic__run;
-mod mac_basic__init;
-mod mac_capture__exp;
-mod mac_gensym_disj__par;
-mod mac_disj__exppar;
-mod rnd_core_01__par;
-mod rnd_core_04__ser;
-mod rnd_core_06__pari;
-mod rnd_core_09__par;
-mod rnd_core_12__ser;
-mod rnd_core_14__pari;
-mod rnd_core_17__par;
-mod rnd_core_20__ser;
-mod rnd_core_22__pari;
-mod rnd_core_25__par;
-mod rnd_core_28__ser;
-mod rnd_core_30__pari;
-mod rnd_agg_03__par;
-mod rnd_agg_06__ser;
-mod rnd_agg_08__pari;
-mod rnd_agg_11__par;
-mod rnd_agg_14__ser;
-mod rnd_prec_01__pari;
-mod rnd_prec_03__ser;
-mod rnd_prec_04__to;
-mod rnd_prec_06__par;
-mod rnd_prec_07__topar;
-mod rnd_prea_01__pari;
-mod rnd_prea_04__par;
-mod rnd_prea_07__ser;
+mod lat_input__srcred;
+mod count_paths__to;
+mod count_paths__srcto;
+mod neg_basic__pari;
+mod neg_basic__src2;
+mod neg_basic__perm2;
+mod agg_depth__ser;
+mod agg_lattice__to;
+mod neg_rec_after__exp;
+mod agg_empty__to;
+mod agg_const_args__par;
+mod disj__par;
+mod disj__src1;
+mod disj__perm1;
+mod disj_nested__pari;
+mod rep_expr__ser;
+mod multi_head_disj__exp;
+mod mac_basic__par;
+mod mac_basic__src1;
+mod mac_basic__exp;
+mod mac_nested__par;
+mod mac_gensym_disj__exppar;
+mod mac_block__pari;
+mod stress_lat__ser;
+mod rnd_core_01__pari;
+mod rnd_core_04__par;
+mod rnd_core_07__ser;
+mod rnd_core_09__pari;
+mod rnd_core_12__par;
+mod rnd_core_15__ser;
+mod rnd_core_17__pari;
+mod rnd_core_20__par;
+mod rnd_core_23__ser;
+mod rnd_core_25__pari;
+mod rnd_core_28__par;
+mod rnd_agg_01__ser;
+mod rnd_agg_03__pari;
+mod rnd_agg_06__par;
+mod rnd_agg_09__ser;
+mod rnd_agg_11__pari;
+mod rnd_agg_14__par;
+mod rnd_prec_01__to;
+mod rnd_prec_03__par;
+mod rnd_prec_04__topar;
+mod rnd_prec_06__pari;
+mod rnd_prec_08__ser;
+mod rnd_prea_02__ser;
+mod rnd_prea_04__pari;
+mod rnd_prea_07__par;
 
 fn lookup(name: &str) -> fn() -> Box<dyn Driven> {
    match name {
       "tc_right__to" => tc_right__to::make,
       "tc_left__mrt" => tc_left__mrt::make,
-      "tc_left__runpar" => tc_left__runpar::make,
-      "tc_left__strpar" => tc_left__strpar::make,
-      "tc_nonlin__ren" => tc_nonlin__ren::make,
-      "mutual__to" => mutual__to::make,
-      "mutual__srcto" => mutual__srcto::make,
-      "mutual__permpar" => mutual__permpar::make,
-      "scc_chain__topar" => scc_chain__topar::make,
-      "diamond__ser" => diamond__ser::make,
-      "repeated__pari" => repeated__pari::make,
-      "three_dyn__ser" => three_dyn__ser::make,
-      "three_dyn__permpar" => three_dyn__permpar::make,
-      "conds__par" => conds__par::make,
-      "conds__srcto" => conds__srcto::make,
-      "conds__permpar" => conds__permpar::make,
-      "count_up__topar" => count_up__topar::make,
-      "multi_head__ren" => multi_head__ren::make,
-      "facts__src0" => facts__src0::make,
-      "facts__perm1" => facts__perm1::make,
-      "opt_cols__par" => opt_cols__par::make,
-      "opt_cols__srcto" => opt_cols__srcto::make,
-      "same_gen__ser" => same_gen__ser::make,
-      "same_gen__permpar" => same_gen__permpar::make,
-      "not_reorderable__topar" => not_reorderable__topar::make,
-      "pre_join_rec__to" => pre_join_rec__to::make,
-      "two_inputs__pari" => two_inputs__pari::make,
-      "two_inputs__src2" => two_inputs__src2::make,
-      "two_inputs__ren" => two_inputs__ren::make,
-      "ternary__ser" => ternary__ser::make,
-      "ternary__u64" => ternary__u64::make,
-      "bound_mix__permpar" => bound_mix__permpar::make,
-      "join_chain__perm2" => join_chain__perm2::make,
-      "cond_simple_join__pari" => cond_simple_join__pari::make,
-      "zero_arity__pari" => zero_arity__pari::make,
-      "lag_right__topar" => lag_right__topar::make,
-      "lag_left__ser" => lag_left__ser::make,
-      "lag_three__to" => lag_three__to::make,
-      "lag_mid__permpar" => lag_mid__permpar::make,
-      "lag_late_delta__topar" => lag_late_delta__topar::make,
-      "sp_dual__ser" => sp_dual__ser::make,
-      "sp_dual__src0" => sp_dual__src0::make,
-      "sp_dual__perm1" => sp_dual__perm1::make,
-      "sp_weighted__topar" => sp_weighted__topar::make,
-      "set_reach__pari" => set_reach__pari::make,
-      "set_reach__src2" => set_reach__src2::make,
+      "tc_left__init" => tc_left__init::make,
+      "tc_left__u64" => tc_left__u64::make,
+      "tc_nonlin__perm2" => tc_nonlin__perm2::make,
+      "mutual__pari" => mutual__pari::make,
+      "mutual__src2" => mutual__src2::make,
+      "mutual__perm2" => mutual__perm2::make,
+      "scc_chain__pari" => scc_chain__pari::make,
+      "scc_chain__u64" => scc_chain__u64::make,
+      "repeated__ser" => repeated__ser::make,
+      "repeated__u64" => repeated__u64::make,
+      "three_dyn__perm2" => three_dyn__perm2::make,
+      "four_dyn__pari" => four_dyn__pari::make,
+      "conds__src1" => conds__src1::make,
+      "conds__perm1" => conds__perm1::make,
+      "count_up__par" => count_up__par::make,
+      "multi_head__topar" => multi_head__topar::make,
+      "facts__run" => facts__run::make,
+      "facts__redecl" => facts__redecl::make,
+      "facts__str" => facts__str::make,
+      "opt_cols__gen" => opt_cols__gen::make,
+      "opt_cols__runpar" => opt_cols__runpar::make,
+      "same_gen__to" => same_gen__to::make,
+      "same_gen__strpar" => same_gen__strpar::make,
+      "not_reorderable__ren" => not_reorderable__ren::make,
+      "pre_join_rec__perm2" => pre_join_rec__perm2::make,
+      "two_inputs__run" => two_inputs__run::make,
+      "two_inputs__redecl" => two_inputs__redecl::make,
+      "two_inputs__str" => two_inputs__str::make,
+      "ternary__pari" => ternary__pari::make,
+      "bound_mix__ser" => bound_mix__ser::make,
+      "bound_mix__u64" => bound_mix__u64::make,
+      "join_chain__permpar" => join_chain__permpar::make,
+      "reach__par" => reach__par::make,
+      "self_join3__par" => self_join3__par::make,
+      "lag_right__perm2" => lag_right__perm2::make,
+      "lag_left__pari" => lag_left__pari::make,
+      "lag_mid__ser" => lag_mid__ser::make,
+      "lag_mid__u64" => lag_mid__u64::make,
+      "multi_head_rec__par" => multi_head_rec__par::make,
+      "sp_dual__pari" => sp_dual__pari::make,
+      "sp_dual__src2" => sp_dual__src2::make,
+      "sp_dual__perm2" => sp_dual__perm2::make,
+      "longest_capped__ser" => longest_capped__ser::make,
+      "set_reach__to" => set_reach__to::make,
+      "set_reach__srcto" => set_reach__srcto::make,
       "bset__pari" => bset__pari::make,
       "opt_lat__ser" => opt_lat__ser::make,
       "bool_lat__pari" => bool_lat__pari::make,
       "lat_multi_improve__topar" => lat_multi_improve__topar::make,
       "lat_count_all__pari" => lat_count_all__pari::make,
       "lat_input__topar" => lat_input__topar::make,
-      "lat_input__redecl" => lat_input__redecl::make,
-      "count_paths__topar" => count_paths__topar::make,
-      "count_paths__redecl" => count_paths__redecl::make,
-      "neg_basic__topar" => neg_basic__topar::make,
-      "neg_basic__redecl" => neg_basic__redecl::make,
-      "neg_basic__exp" => neg_basic__exp::make,
-      "agg_depth__to" => agg_depth__to::make,
-      "agg_user__par" => agg_user__par::make,
-      "agg_bound_mix__par" => agg_bound_mix__par::make,
-      "agg_empty_rel__par" => agg_empty_rel__par::make,
-      "agg_const_args__exppar" => agg_const_args__exppar::make,
-      "disj__topar" => disj__topar::make,
-      "disj__redecl" => disj__redecl::make,
-      "disj__exp" => disj__exp::make,
-      "pat_args__par" => pat_args__par::make,
-      "rep_expr__exppar" => rep_expr__exppar::make,
-      "neg_in_disj__pari" => neg_in_disj__pari::make,
-      "mac_basic__run" => mac_basic__run::make,
-      "mac_basic__init" => mac_basic__init::make,
-      "mac_capture__exp" => mac_capture__exp::make,
-      "mac_gensym_disj__par" => mac_gensym_disj__par::make,
-      "mac_disj__exppar" => mac_disj__exppar::make,
-      "rnd_core_01__par" => rnd_core_01__par::make,
-      "rnd_core_04__ser" => rnd_core_04__ser::make,
-      "rnd_core_06__pari" => rnd_core_06__pari::make,
-      "rnd_core_09__par" => rnd_core_09__par::make,
-      "rnd_core_12__ser" => rnd_core_12__ser::make,
-      "rnd_core_14__pari" => rnd_core_14__pari::make,
-      "rnd_core_17__par" => rnd_core_17__par::make,
-      "rnd_core_20__ser" => rnd_core_20__ser::make,
-      "rnd_core_22__pari" => rnd_core_22__pari::make,
-      "rnd_core_25__par" => rnd_core_25__par::make,
-      "rnd_core_28__ser" => rnd_core_28__ser::make,
-      "rnd_core_30__pari" => rnd_core_30__pari::make,
-      "rnd_agg_03__par" => rnd_agg_03__par::make,
-      "rnd_agg_06__ser" => rnd_agg_06__ser::make,
-      "rnd_agg_08__pari" => rnd_agg_08__pari::make,
-      "rnd_agg_11__par" => rnd_agg_11__par::make,
-      "rnd_agg_14__ser" => rnd_agg_14__ser::make,
-      "rnd_prec_01__pari" => rnd_prec_01__pari::make,
-      "rnd_prec_03__ser" => rnd_prec_03__ser::make,
-      "rnd_prec_04__to" => rnd_prec_04__to::make,
-      "rnd_prec_06__par" => rnd_prec_06__par::make,
-      "rnd_prec_07__topar" => rnd_prec_07__topar::make,
-      "rnd_prea_01__pari" => rnd_prea_01__pari::make,
-      "rnd_prea_04__par" => rnd_prea_04__par::make,
-      "rnd_prea_07__ser" => rnd_prea_07__ser::make,
+      "lat_input__srcred" => lat_input__srcred::make,
+      "count_paths__to" => count_paths__to::make,
+      "count_paths__srcto" => count_paths__srcto::make,
+      "neg_basic__pari" => neg_basic__pari::make,
+      "neg_basic__src2" => neg_basic__src2::make,
+      "neg_basic__perm2" => neg_basic__perm2::make,
+      "agg_depth__ser" => agg_depth__ser::make,
+      "agg_lattice__to" => agg_lattice__to::make,
+      "neg_rec_after__exp" => neg_rec_after__exp::make,
+      "agg_empty__to" => agg_empty__to::make,
+      "agg_const_args__par" => agg_const_args__par::make,
+      "disj__par" => disj__par::make,
+      "disj__src1" => disj__src1::make,
+      "disj__perm1" => disj__perm1::make,
+      "disj_nested__pari" => disj_nested__pari::make,
+      "rep_expr__ser" => rep_expr__ser::make,
+      "multi_head_disj__exp" => multi_head_disj__exp::make,
+      "mac_basic__par" => mac_basic__par::make,
+      "mac_basic__src1" => mac_basic__src1::make,
+      "mac_basic__exp" => mac_basic__exp::make,
+      "mac_nested__par" => mac_nested__par::make,
+      "mac_gensym_disj__exppar" => mac_gensym_disj__exppar::make,
+      "mac_block__pari" => mac_block__pari::make,
+      "stress_lat__ser" => stress_lat__ser::make,
+      "rnd_core_01__pari" => rnd_core_01__pari::make,
+      "rnd_core_04__par" => rnd_core_04__par::make,
+      "rnd_core_07__ser" => rnd_core_07__ser::make,
+      "rnd_core_09__pari" => rnd_core_09__pari::make,
+      "rnd_core_12__par" => rnd_core_12__par::make,
+      "rnd_core_15__ser" => rnd_core_15__ser::make,
+      "rnd_core_17__pari" => rnd_core_17__pari::make,
+      "rnd_core_20__par" => rnd_core_20__par::make,
+      "rnd_core_23__ser" => rnd_core_23__ser::make,
+      "rnd_core_25__pari" => rnd_core_25__pari::make,
+      "rnd_core_28__par" => rnd_core_28__par::make,
+      "rnd_agg_01__ser" => rnd_agg_01__ser::make,
+      "rnd_agg_03__pari" => rnd_agg_03__pari::make,
+      "rnd_agg_06__par" => rnd_agg_06__par::make,
+      "rnd_agg_09__ser" => rnd_agg_09__ser::make,
+      "rnd_agg_11__pari" => rnd_agg_11__pari::make,
+      "rnd_agg_14__par" => rnd_agg_14__par::make,
+      "rnd_prec_01__to" => rnd_prec_01__to::make,
+      "rnd_prec_03__par" => rnd_prec_03__par::make,
+      "rnd_prec_04__topar" => rnd_prec_04__topar::make,
+      "rnd_prec_06__pari" => rnd_prec_06__pari::make,
+      "rnd_prec_08__ser" => rnd_prec_08__ser::make,
+      "rnd_prea_02__ser" => rnd_prea_02__ser::make,
+      "rnd_prea_04__pari" => rnd_prea_04__pari::make,
+      "rnd_prea_07__par" => rnd_prea_07__par::make,
       _ => panic!("no such program variant in this shard: {}", name),
    }
 }
